@@ -6,6 +6,7 @@ import ShkModel.Driver.Aud
 import ShkModel.Driver.C02
 import ShkModel.Driver.C03
 import ShkModel.Driver.C04
+import ShkModel.Driver.C07
 import ShkModel.Driver.C08
 import ShkModel.Driver.C11
 /-! `shkdrv`: the executable model driver.  One request per line
@@ -23,6 +24,7 @@ def dispatch (line : String) : String :=
   | "C02" :: rest => C02.handle rest
   | "C03" :: rest => C03.handle rest
   | "C04" :: rest => C04.handle rest
+  | "C07" :: rest => C07.handle rest
   | "C08" :: rest => C08.handle rest
   | "C11" :: rest => C11.handle rest
   | _ => "bad-op"
